@@ -562,6 +562,76 @@ def reset_equals_fresh(ctx, exe, viol, known):
     ctx.count("reset_vs_fresh_pairs", n)
 
 
+def idiom_streams(ctx, exe, viol):
+    """Totals through the documented idioms, on the real code only: every stream-length class (0, 1, a few, shorter than the
+    converter's latency, around one internal block, long) x every supply / block / read size class (1 ... huge), every
+    converter id: pull (src_callback_read until it returns 0), push (src_process, end_of_input on the last block, until a
+    call generates nothing), one-shot (src_simple).  The total must be round(input * src_ratio) (near-tie rule)."""
+    rng = ctx.rng
+    lengths = [0, 1, 2, 3, 5, 10, 33, 100, 257, 500, 999, 1000, 1024, 4095, 4096, 4097, 8200, 20000]
+    sizes = [1, 2, 7, 64, 100, 1000, 4096, 20000, 60000]
+    ratios = [0.5, 2.0, 1.0, 1.5, 44100 / 48000., 48000 / 44100., 3.0, 1 / 3., 0.1, 7.3, 0.999, math.pi / 3]
+    seqs = []
+    per = 8 if ctx.quick else 40
+
+    def pick_len(cls):
+        return {0: rng.choice(lengths[:5]), 1: rng.choice(lengths[5:12]), 2: 1 + rng.below(1000), 3: rng.choice(lengths[12:])}[cls]
+    k = 0
+    for cid in range(5):
+        for cls in range(4):
+            for _ in range(per):
+                for mode in ("pull", "push", "simple"):
+                    n = pick_len(cls)
+                    r = rng.choice(ratios)
+                    ch = rng.choice((1, 1, 2))
+                    a, b = rng.choice(sizes), rng.choice(sizes)
+                    if n * r > 3000:                # keep the number of calls per stream bounded
+                        b = max(b, 64)
+                    if mode == "pull" and ch > 1:
+                        a = min(a, 20000)
+                    s = Seq("idiom%d" % k, "idiom-" + mode); k += 1
+                    if mode == "pull":
+                        s.add("cbnew", cid, ch, 1, 1); s.add("readall", hx(r), b, n, a); s.add("delete", 0)
+                    elif mode == "push":
+                        s.add("new", cid, ch, 1); s.add("pushall", hx(r), n, a, b); s.add("delete", 0)
+                    else:
+                        room = int(n * r) + 10 if rng.chance(.7) else b
+                        s.add("simple", cid, ch, hx(r), n, room, 0)
+                    s.meta = (mode, cid, n, r, a, b)
+                    seqs.append(s)
+    res, _ = run_harness(exe, seqs)
+    nchk = 0
+    for s in seqs:
+        mode, cid, n, r, a, b = s.meta
+        ops, status = res.get(s.label, ([], "missing"))
+        ctx.hist("idiom_mode", mode); ctx.hist("idiom_length_class", "0" if n == 0 else "1" if n == 1 else "<=10" if n <= 10 else "<=1000" if n <= 1000 else "<=4097" if n <= 4097 else "long")
+        idx = 0 if mode == "simple" else 1
+        if not status.startswith("exit 0") or len(ops) <= idx or ops[idx][1] is None:
+            viol.append((s, idx, "%s idiom: the stream did not complete (%s)" % (mode, status))); continue
+        kv = dict(x.split("=") for x in ops[idx][1].split() if "=" in x)
+        want = expected_total(n, r)
+        nchk += 1
+        if mode == "simple":
+            room = int(s.ops[0].split()[5])
+            if kv.get("rc") != "0":
+                viol.append((s, 0, "src_simple failed on valid arguments: " + ops[0][1])); continue
+            used, gen = int(kv["used"]), int(kv["gen"])
+            if used == n and max(want) <= room and gen not in want:
+                viol.append((s, 0, "src_simple delivered %d frames for %d input frames at ratio %r (id %d), expected %s" % (gen, n, r, cid, sorted(want))))
+            continue
+        total = int(kv["total"])
+        if mode == "push" and (kv.get("rc") != "0" or kv.get("bad") != "0" or int(kv["used"]) != n):
+            viol.append((s, 1, "push idiom: src_process rc=%s contract-flag=%s used %s of %d" % (kv.get("rc"), kv.get("bad"), kv.get("used"), n))); continue
+        if mode == "pull" and (int(kv["last"]) != 0 or total < 0):
+            viol.append((s, 1, "pull idiom: src_callback_read returned %s (more than asked / negative)" % kv["last"])); continue
+        if total not in want:
+            what = ("src_callback_read returned 0 (finished) after %d frames" if mode == "pull" else "src_process stopped generating after %d frames") % total
+            viol.append((s, 1, "%s idiom: %s for %d input frames at ratio %r, converter id %d, %s, expected %s" % (
+                mode, what, n, r, cid, ("callback blocks of %d, reads of %d" % (a, b)) if mode == "pull" else ("input blocks of %d, room for %d" % (a, b)), sorted(want))))
+    ctx.count("idiom_streams_checked", nchk)
+    return len(seqs)
+
+
 # ------------------------------------------------------------------ helpers (array conversion functions)
 
 def helper_cases(ctx):
@@ -783,6 +853,7 @@ def run(ctx):
     stats = falsify(ctx, seqs, res, viol, known)
     ctx.cov["falsifier"] = stats
     reset_equals_fresh(ctx, exe, viol, known)
+    nidiom = idiom_streams(ctx, exe, viol)
     # sanitizer reports: the NULL dereferences are the crashes the model predicts (compared op by op above); anything else
     # (heap overflow of a caller buffer = contract broken, other undefined behaviour) is a violation
     for e in stderr:
@@ -811,7 +882,7 @@ def run(ctx):
             if t[0] in ("new", "cbnew"):
                 ctx.hist("converter_id", t[1]); ctx.hist("channels", t[2])
     ctx.cov["sequence_kinds"] = kinds
-    ctx.count("evaluations", nops + nh)
+    ctx.count("evaluations", nops + nh + nidiom)
     ctx.count("distinct_nontrivial", len(distinct))
     ctx.cov["rule"] = ("op sequences: src_new/src_callback_new (ids 0..5, 1..4 channels), runs of src_process with block sizes from "
                        "{0,1,2,3,7,16,…,4097} in and out, end_of_input from a random call on, drains, per-call ratio changes in a "
